@@ -387,11 +387,16 @@ def check_pair_schedule(ctx, fi):
                         defs[t.id] = ('item', k, a.value)
     it = lp.iter
     key = None
-    if isinstance(it, ast.Call) and U(it.func) == 'sorted' and len(it.args) == 1:
-        key = next((k.value for k in it.keywords if k.arg == 'key'), None)
-        it = it.args[0]
-    if isinstance(it, ast.Name) and isinstance(defs.get(it.id), ast.AST):
-        it = defs[it.id]
+    for _ in range(4):
+        if isinstance(it, ast.Name) and isinstance(defs.get(it.id), ast.AST):
+            it = defs[it.id]
+        elif isinstance(it, ast.Call) and U(it.func) == 'sorted' and len(it.args) == 1 and key is None:
+            key = next((k.value for k in it.keywords if k.arg == 'key'), None)
+            it = it.args[0]
+        elif isinstance(it, ast.Call) and U(it.func) in ('list', 'tuple') and len(it.args) == 1:
+            it = it.args[0]
+        else:
+            break
     if not (isinstance(it, ast.Call) and U(it.func).split('.')[-1] == 'combinations' and len(it.args) == 2 and U(it.args[1]) == '2'):
         raise AnalysisError('calculate_many_marginals: pair enumeration `%s` is in no recognised form' % U(lp.iter)[:80])
     S = U(it.args[0]).replace(' ', '')
